@@ -1,6 +1,6 @@
 CONSTANTS
   Sizes = {1, 4096, 70000, 1048576}
-  MaxOps = 4
+  MaxOps = 5
   Defects = {}
 SPECIFICATION Spec
 INVARIANTS InOrderPrefix NothingLostBeforeEof EmitCase
